@@ -49,7 +49,7 @@ const (
 type area struct{}
 
 func (area) Requires() string {
-	return "From VF Require Import Common.Verdict Store.Model Store.Spec Store.Corr."
+	return "From VF Require Import Common.Verdict Store.Model Store.Spec Store.Corr.\nOpen Scope N_scope."
 }
 func (area) Check() string { return "check_case" }
 func (area) Rule() string {
